@@ -364,7 +364,7 @@ def tie_streams(ctx, specs, res, dist):
 
     def stream(name, in_type, fn, cases, what):
         try:
-            mism = ctx.model_stream(name, HEADER, in_type, fn, cases, shard=40)
+            mism = ctx.model_stream(name, HEADER, in_type, fn, cases, shard=80)
             for idx, mv in mism[:3]:
                 ctx.violation("%s%d" % (name.replace("-", ""), idx),
                               {"stream": name, "case": cases[idx][2], "expected_from_implementation": cases[idx][1],
@@ -403,8 +403,8 @@ def run(ctx):
     quick = ctx.tier == "quick"
     ctx.fingerprint(FILES)
     ctx.translate(["Z3"])
-    ctx.build(ctx.pid, deps=["Model/Z3Model.v"])
-    n = 100 if quick else 1000
+    ctx.build("C10_z3", deps=["Model/Z3Model.v"])   # the part's own statements, whatever property id runs it
+    n = 80 if quick else 800
     specs = [gen_spec(ctx.rng, ["mixed", "busy", "mixed", "odd", "single"][i % 5]) for i in range(n)]
     res = run_specs(ctx, specs, n_models=5 if quick else 8, n_rand=8 if quick else 16)
     ctx.rules.append(RULE + "; non-trivial = at least two offered tasks that can be placed on a common worker, or a partially "
